@@ -284,7 +284,7 @@ def units(tier, seed):
     u = []
     quick = tier == "quick"
     for k in range(7):
-        u.append({"name": f"gen{k:02d}", "kind": "gen", "n": 150 if quick else 2000})
+        u.append({"name": f"gen{k:02d}", "kind": "gen", "n": 150 if quick else 3000})
     files = [str(p.relative_to(repo_root())) for p in data_files()]
     for k in range(4):
         u.append({"name": f"data{k}", "kind": "data", "files": files[k::4], "n": 200 if quick else 600})
@@ -294,7 +294,7 @@ def units(tier, seed):
         else:
             for k in range(4):
                 u.append({"name": f"chunks-{fname}-{k}", "kind": "chunks", "file": fname, "which": k, "n": 120})
-            u.append({"name": f"whole-{fname}", "kind": "master", "file": fname, "n": 6})
+            u.append({"name": f"whole-{fname}", "kind": "master", "file": fname, "n": 10})
     return u
 
 
